@@ -51,6 +51,8 @@ struct Sk<'a> {
     on_assign: Vec<(String, String)>,
     on_then: Vec<(Vec<pattern::Pat>, String, String)>,
     on_mutcall: Vec<(String, String)>,
+    on_else: Vec<(Vec<pattern::Pat>, String, String)>,
+    on_mutarg: Vec<(String, String)>,
     loop_specs: HashMap<usize, Vec<String>>,
     loop_no: usize,
     loops: Vec<LoopCtx>,
@@ -281,12 +283,14 @@ impl<'a> Sk<'a> {
                     return Ok(None);
                 }
                 self.effects(&m.receiver, out)?;
+                self.mutarg_hooks(m.args.iter(), out);
                 for a in &m.args {
                     self.effects(a, out)?;
                 }
                 Ok(None)
             }
             Expr::Call(c) => {
+                self.mutarg_hooks(c.args.iter(), out);
                 if let Expr::Path(p) = &*c.func {
                     let last = p.path.segments.last().unwrap().ident.to_string();
                     if self.events.get(&last).map(|e| e.free).unwrap_or(false) {
@@ -542,7 +546,7 @@ impl<'a> Sk<'a> {
                 }
             }
             Expr::Path(p) if p.path.is_ident("None") => return Ok("None".into()),
-            Expr::If(i) if !matches!(&*i.cond, Expr::Let(_)) && i.else_branch.is_some() => {
+            Expr::If(i) if i.else_branch.is_some() => {
                 // tail `if c { Ok(a) } else { Err(..) }`: keep the structure, each branch returns
                 let mut lines = Vec::new();
                 self.stmt_expr_tail(e, &mut lines)?;
@@ -576,7 +580,27 @@ impl<'a> Sk<'a> {
         match e {
             Expr::If(i) => {
                 let mut pre = Vec::new();
-                let c = self.cond_with_hooks(i, &mut pre)?;
+                let c = if let Expr::Let(l) = &*i.cond {
+                    let v = self.val(&l.expr, &mut pre)?;
+                    let mut names = Vec::new();
+                    collect_pat_idents(&l.pat, &mut names);
+                    match v {
+                        Some(v) => (format!("let {} = {v}", self.pat_text(&l.pat)), vec![]),
+                        None => {
+                            let mut binds = Vec::new();
+                            for n in &names {
+                                if let Some(ty) = self.kept.get(n).cloned() {
+                                    binds.push(format!("let {n}: {ty} = {};", self.nd_of(&ty)));
+                                } else if let Some(ty) = self.tracked.get(n).cloned() {
+                                    binds.push(format!("let {n}: {ty} = arb::<{ty}>();"));
+                                }
+                            }
+                            ("nd()".to_string(), binds)
+                        }
+                    }
+                } else {
+                    self.cond_with_hooks(i, &mut pre)?
+                };
                 out.extend(pre);
                 out.push(format!("if {} {{ {}", c.0, self.srcnote(i.cond.span())));
                 let mut inner = c.1;
@@ -685,17 +709,56 @@ impl<'a> Sk<'a> {
         }
     }
 
+    /// does `cond == true` imply that the test described by `pat` passed?  (`pat` must be a conjunct)
+    fn cond_implies(cond: &syn::Expr, pat: &[pattern::Pat], when: bool) -> bool {
+        match cond {
+            syn::Expr::Paren(p) => Self::cond_implies(&p.expr, pat, when),
+            syn::Expr::Binary(b) if matches!(b.op, syn::BinOp::And(_)) => {
+                if when {
+                    Self::cond_implies(&b.left, pat, when) || Self::cond_implies(&b.right, pat, when)
+                } else {
+                    Self::cond_implies(&b.left, pat, when) && Self::cond_implies(&b.right, pat, when)
+                }
+            }
+            syn::Expr::Binary(b) if matches!(b.op, syn::BinOp::Or(_)) => {
+                if when {
+                    Self::cond_implies(&b.left, pat, when) && Self::cond_implies(&b.right, pat, when)
+                } else {
+                    Self::cond_implies(&b.left, pat, when) || Self::cond_implies(&b.right, pat, when)
+                }
+            }
+            syn::Expr::Unary(u) if matches!(u.op, syn::UnOp::Not(_)) => false,
+            other => pattern::contains(pat, other.to_token_stream()),
+        }
+    }
+
     fn cond_with_hooks(&mut self, i: &syn::ExprIf, pre: &mut Vec<String>) -> R<(String, Vec<String>)> {
         let c = self.cond(&i.cond, pre)?;
         let mut hooks = Vec::new();
-        let toks = i.cond.to_token_stream();
         for (pat, stmt, raw) in self.on_then.clone() {
-            if pattern::contains(&pat, toks.clone()) {
+            if Self::cond_implies(&i.cond, &pat, true) {
                 hooks.push(format!("{stmt} // hook: then `{raw}`"));
                 self.used_hooks.push(format!("then {raw}"));
             }
         }
         Ok((c, hooks))
+    }
+
+    fn mutarg_hooks<'b>(&mut self, args: impl Iterator<Item = &'b syn::Expr>, out: &mut Vec<String>) {
+        for a in args {
+            if let syn::Expr::Reference(r) = a {
+                if r.mutability.is_some() {
+                    if let Some(root) = Self::root_ident(&r.expr) {
+                        for (v, stmt) in self.on_mutarg.clone() {
+                            if v == root {
+                                out.push(format!("{stmt} // hook: `&mut {v}` passed to a call"));
+                                self.used_hooks.push(format!("mutarg {v}"));
+                            }
+                        }
+                    }
+                }
+            }
+        }
     }
 
     fn assign_hooks(&mut self, target: &syn::Expr, out: &mut Vec<String>) {
@@ -823,6 +886,14 @@ impl<'a> Sk<'a> {
                     self.note("S6", e.span(), "assignment into a tracked object: havoc");
                     out.push(format!("{root} = arb::<{ty}>(); {}", self.srcnote(e.span())));
                 } else {
+                    if let Some(v) = rhs.filter(|v| v.contains('(') && !v.starts_with('(') && !v.starts_with('!')) {
+                        // the assigned value is erased, its effects (error return, events) are not
+                        if v.ends_with('?') {
+                            out.push(format!("{v}; {}", self.srcnote(e.span())));
+                        } else {
+                            out.push(format!("let _ = {v}; {}", self.srcnote(e.span())));
+                        }
+                    }
                     self.dropped += 1;
                 }
                 self.assign_hooks(&a.left, out);
@@ -904,6 +975,14 @@ impl<'a> Sk<'a> {
                 let mut inner = hooks;
                 self.body(&i.then_branch, &mut inner)?;
                 let mut einner = Vec::new();
+                {
+                    for (pat, stmt, raw) in self.on_else.clone() {
+                        if Self::cond_implies(&i.cond, &pat, false) {
+                            einner.push(format!("{stmt} // hook: else `{raw}`"));
+                            self.used_hooks.push(format!("else {raw}"));
+                        }
+                    }
+                }
                 if let Some((_, eb)) = &i.else_branch {
                     match &**eb {
                         Expr::Block(b) => self.body(&b.block, &mut einner)?,
@@ -1208,6 +1287,8 @@ pub fn skeleton_fn(ctx: &mut Ctx, blk: &Block) -> Result<(String, Value), String
         on_assign: vec![],
         on_then: vec![],
         on_mutcall: vec![],
+        on_else: vec![],
+        on_mutarg: vec![],
         loop_specs: HashMap::new(),
         loop_no: 0,
         loops: vec![],
@@ -1260,6 +1341,8 @@ pub fn skeleton_fn(ctx: &mut Ctx, blk: &Block) -> Result<(String, Value), String
                     "assign" => sk.on_assign.push((what.trim().to_string(), stmt)),
                     "mutcall" => sk.on_mutcall.push((what.trim().to_string(), stmt)),
                     "then" => sk.on_then.push((pattern::parse_pattern(what.trim())?, stmt, what.trim().to_string())),
+                    "else" => sk.on_else.push((pattern::parse_pattern(what.trim())?, stmt, what.trim().to_string())),
+                    "mutarg" => sk.on_mutarg.push((what.trim().to_string(), stmt)),
                     k => return Err(format!("on: unknown kind {k}")),
                 }
                 declared_hooks.push(format!("{kind} {}", what.trim()));
